@@ -90,7 +90,7 @@ PROPS = {
             "MRO lookup admits (R-ADMITTED). Decides type conformance of declarations vs. implementations for all overloads; "
             "does not decide values of dtype `object` nor conformance of ledger data to beancount's annotations. Also: the overload-resolution primitives of types.py (Any equals every class and not the `*` pseudo-type, the strict linearisation, first overload along it) behave as the registry model assumes (R-LOOKUP, 13 cases on terms), and every output column of both scan branches holds the value of its own target (R-ROWLOOP, R-AGGPROTO key layout). A subquery column announces the data type of the inner target whose row position it reads, with hidden, repeated and mixed-case inner names (R-VISFILTER). AND / OR announce bool and evaluate to NULL, FALSE or TRUE whatever the operand types (R-3VL)."),
         'assumptions': TRUSTED_ABSINT,
-        'quick': [dtype.rule_dtype, dtype.rule_typesafe, dtype.rule_renderable, cr.rule_opresolve, sxk.rule_coalesce,
+        'quick': [dtype.rule_dtype, dtype.rule_typesafe, dtype.rule_renderable, sxg.rule_opresolve, sxk.rule_coalesce,
                   sxk.rule_implicitcast, sxty.rule_lookup, sxs.rule_aggproto, sx.rule_rowloop, tb.rule_tablefields, cr.rule_visfilter, sxev.rule_3vl],
         'thorough': [dtype.rule_admitted],
     },
@@ -115,7 +115,7 @@ PROPS = {
             "of parse positions produced by TatSu at run time. Also on terms: the 11 combinations of placeholder kinds and parameter kinds give the stated outcome (R-PLACEHOLDER), the 33 FROM clause combinations (R-FROMCLAUSE), IN / NOT IN operands (R-INOP), the resolution primitives (R-LOOKUP)."),
         'assumptions': TRUSTED_STRUCT + TRUSTED_ABSINT[:1],
         'quick': [cr.rule_raise, sxg.rule_guards, sxg.rule_targetchk, cr.rule_guard_typesafe, sxk.rule_idxbound,
-                  cr.rule_opresolve, cr.rule_partial, cr.rule_foldsafe, cr.rule_exhaustive, cr.rule_exctree,
+                  sxg.rule_opresolve, cr.rule_partial, cr.rule_foldsafe, cr.rule_exhaustive, cr.rule_exctree,
                   eqfaith.rule_eqfaith, sxk.rule_coalesce, sxk.rule_implicitcast, sxst.rule_placeholder, sxk.rule_fromclause, sxk.rule_inop, sxty.rule_lookup],
         'thorough': [sxk.rule_idxbound_deep],
     },
